@@ -99,9 +99,21 @@ func verifyFunction(P *Program, CS *ContractSet, L *Layout, ct *FuncContract, op
 	vc := NewVC(P, CS, L, fn, ct)
 	if err := vc.Generate(); err != nil {
 		fr.Err = err.Error()
+		if strings.Contains(fr.Err, "does not exist (function has") || strings.Contains(fr.Err, "contract says") {
+			// the loop a contract clause is attached to is gone or is a different loop now
+			fr.Obls = append(fr.Obls, &OblReport{Name: ct.Key() + "/contract-target-missing[loop]", Canon: ct.Key() + "/contract-target-missing[loop]",
+				Kind: "target", Func: ct.Key(), Verdict: "failed", Src: fr.Err})
+			return fr
+		}
 		fr.Obls = append(fr.Obls, &OblReport{Name: ct.Key() + "/vc-generation", Canon: ct.Key() + "/vc-generation", Kind: "tool", Func: ct.Key(),
 			Verdict: "tool-error", Src: err.Error()})
 		return fr
+	}
+	for callee := range ct.AtCall {
+		if vc.atCallSeen[callee] == 0 {
+			vc.addObl(&Obligation{Name: vc.key + "/contract-target-missing[at-call " + callee + "]", Kind: "target", Goal: "false",
+				Src: "the call of " + callee + " that an at-call assertion is attached to no longer exists"})
+		}
 	}
 	// vacuity: the context (requires + assumed facts) must be satisfiable with some return reachable
 	var retGuards []string
@@ -241,6 +253,10 @@ func RunCheck(opts CheckOpts) int {
 		}
 		if ct.Kind != "func" {
 			assumedAll = append(assumedAll, ct.Kind+" "+ct.Key())
+			continue
+		}
+		if ct.Flags["trusted"] {
+			assumedAll = append(assumedAll, "trusted (contract used at call sites, body not verified) "+ct.Key())
 			continue
 		}
 		if opts.OnlyFunc != "" && !strings.Contains(ct.Key(), opts.OnlyFunc) {
